@@ -188,7 +188,7 @@ func runC07(c *core.Ctx) {
 	if f := fn(c, "C07-R3", up); f != nil {
 		ok := false
 		for _, s := range callsIn(f, iN+"Instance.bumpToRound") {
-			if c.E.Analyze(s.Fn).D.D(s.Instr.Common().Args[1]).String() == "p2.Message.Round" {
+			if s.Arg(c, 1).String() == "p2.Message.Round" {
 				ok = true
 			}
 		}
